@@ -16,10 +16,10 @@ type T struct {
 	Kids   []*T
 }
 
-func L(n uint64) *T        { return &T{IsLeaf: true, N: n} }
-func LI(n int) *T          { return &T{IsLeaf: true, N: uint64(n)} }
-func LBig(b *big.Int) *T   { return &T{IsLeaf: true, Big: b} }
-func N(kids ...*T) *T      { return &T{Kids: kids} }
+func L(n uint64) *T      { return &T{IsLeaf: true, N: n} }
+func LI(n int) *T        { return &T{IsLeaf: true, N: uint64(n)} }
+func LBig(b *big.Int) *T { return &T{IsLeaf: true, Big: b} }
+func N(kids ...*T) *T    { return &T{Kids: kids} }
 func Bool(b bool) *T {
 	if b {
 		return L(1)
